@@ -25,6 +25,7 @@ type fileState struct {
 	bad   bool
 	ck    bool // checkpoint file
 	empty bool // comments only: nothing to execute, and still a migration file with a version
+	grown bool // repaired with one more statement at its end than it had when it failed
 }
 
 type world struct {
@@ -63,6 +64,10 @@ func (w *world) write(wk *clih.Work) error {
 	for v, f := range w.files {
 		// every file can create the journal table: any file may be the first one executed.
 		files[v+"_f.sql"] = fileBody(v, f.bad, true, f.ck)
+		if f.grown {
+			n, _ := strconv.Atoi(v)
+			files[v+"_f.sql"] += fmt.Sprintf("INSERT INTO journal (sid) VALUES (%d);\n", n*10+3)
+		}
 		if f.empty {
 			files[v+"_f.sql"] = "-- nothing to do in this version\n"
 		}
@@ -189,11 +194,12 @@ func runHistory(ops []cliOp) (problems []string, canon string, applicable bool) 
 			}
 			w.files[v] = &fileState{bad: op.Kind == "add_ooo_bad"}
 			w.write(wk)
-		case "fix":
+		case "fix", "fix_grow":
 			any := false
 			for _, f := range w.files {
 				if f.bad {
 					f.bad, any = false, true
+					f.grown = op.Kind == "fix_grow"
 				}
 			}
 			if !any {
@@ -333,6 +339,9 @@ func runHistory(ops []cliOp) (problems []string, canon string, applicable bool) 
 						break
 					}
 					expect[vi*10+2]++
+					if w.files[v].grown {
+						expect[vi*10+3]++
+					}
 				}
 			case "non-linear":
 				wantFail = true
@@ -442,6 +451,9 @@ func (w *world) versionsWithKind() []string {
 		if w.files[v].empty {
 			k += "e"
 		}
+		if w.files[v].grown {
+			k += "g"
+		}
 		out = append(out, k)
 	}
 	return out
@@ -467,7 +479,7 @@ func status(wk *clih.Work, dirURL, dbURL string) statusOut {
 
 func cliAlphabet() []cliOp {
 	return []cliOp{{Kind: "start_two_applied"}, {Kind: "add"}, {Kind: "add_bad"}, {Kind: "add_ck"}, {Kind: "add_empty"}, {Kind: "add_ooo"}, {Kind: "add_ooo_bad"}, {Kind: "apply"}, {Kind: "apply1"}, {Kind: "apply_nonlinear"}, {Kind: "apply_skip"}, {Kind: "apply_nonlinear_cfg"}, {Kind: "apply_skip_cfg"},
-		{Kind: "set", V: "1"}, {Kind: "set", V: "2"}, {Kind: "set", V: "3"}, {Kind: "set", V: "4"}, {Kind: "fix"}, {Kind: "remove_newest"}}
+		{Kind: "set", V: "1"}, {Kind: "set", V: "2"}, {Kind: "set", V: "3"}, {Kind: "set", V: "4"}, {Kind: "fix"}, {Kind: "fix_grow"}, {Kind: "remove_newest"}}
 }
 
 // RunCLI is the BFS over CLI histories; returns states, transitions.
